@@ -21,7 +21,7 @@ from . import common
 
 ID = 'C09'
 LEVEL = 'exploration'
-RUNS = {'quick': 8000, 'thorough': 200000}
+RUNS = {'quick': 40000, 'thorough': 250000}
 SIM_TIME_UNIT = 'updates / evaluations'
 RULE = ('seeded generation of (specification, decomposition into 1-3 named sub-specifications and 0-3 declared constants incl. '
         'constants used as interval bounds, monitor kind, data, schedule); every update is a checked history; non-trivial = the '
